@@ -9,6 +9,10 @@ R2 = "arn:aws:iam::0123456789:role/r2"
 D1 = {"StartAt": "A", "States": {"A": {"Type": "Pass", "End": True}}}
 D2 = {"StartAt": "A", "States": {"A": {"Type": "Pass", "Result": 1, "ResultPath": "$.x", "Next": "B"}, "B": {"Type": "Pass", "End": True}}}
 S1, S2 = json.dumps(D1), json.dumps(D2)
+LINTBAD = json.dumps({"StartAt": "A", "States": {"A": {"Type": "Pass", "End": True}, "U": {"Type": "Pass", "End": True}}})      # a state nothing leads to
+DUPKEYS = '{"StartAt": "A", "States": {"A": {"Type": "Pass", "End": true}}, "StartAt": "A"}'
+STRICT_TAGS = ("create-ma", "create-ma-d2", "create-ma-lintbad", "create-ma-dupkeys", "update-ma-lintbad", "update-ma-dupkeys-role", "update-ma-def", "update-ma-role-baddef",
+               "describe-ma", "delete-ma", "list", "start-ma-e1", "descexec-ma-e1", "create-notjsondef", "create-emptydef")
 LOG_ALL = {"level": "ALL", "includeExecutionData": True, "destinations": [{"cloudWatchLogsLogGroup": {"logGroupArn": "arn:aws:logs:local:0123456789:log-group:x"}}]}
 
 def sm(n):
@@ -40,6 +44,12 @@ def alphabet(tier):
     for tag, nm in (("empty", ""), ("space", "a b"), ("81", "n" * 81), ("colon", "a:b"), ("slash", "a/b"), ("star", "a*"), ("int", 5), ("null", None)):
         c("create-badname-" + tag, "CreateStateMachine", {"name": nm, "roleArn": R1, "definition": S1}, {"InvalidName"} if isinstance(nm, str) else VALIDATION)
     c("create-noname", "CreateStateMachine", {"roleArn": R1, "definition": S1}, {"InvalidName", "MissingRequiredParameter", "ValidationException"})
+    # definitions that are JSON but that the bundled validator refuses / that repeat a member name: stored as given unless the front end
+    # is configured to validate (validate_asl), in which case they are refused as InvalidDefinition and nothing changes
+    c("create-ma-lintbad", "CreateStateMachine", {"name": "ma", "roleArn": R1, "definition": LINTBAD}, strict_fault={"InvalidDefinition"})
+    c("create-ma-dupkeys", "CreateStateMachine", {"name": "ma", "roleArn": R1, "definition": DUPKEYS}, strict_fault={"InvalidDefinition"})
+    c("update-ma-lintbad", "UpdateStateMachine", {"stateMachineArn": sm("ma"), "definition": LINTBAD}, strict_fault={"InvalidDefinition"})
+    c("update-ma-dupkeys-role", "UpdateStateMachine", {"stateMachineArn": sm("ma"), "roleArn": R2, "definition": DUPKEYS}, strict_fault={"InvalidDefinition"})
     c("create-name80", "CreateStateMachine", {"name": "n" * 80, "roleArn": R1, "definition": S1})
     c("create-badrole", "CreateStateMachine", {"name": "mc", "roleArn": "x", "definition": S1}, {"InvalidArn"})
     # role ARNs that are almost right: no account, letters in the account, another service, no role name, a user instead of a role
@@ -146,12 +156,16 @@ class Ref(object):
         self.execs = {}
 
     def clone(self):
-        r = Ref(); r.machines = copy.deepcopy(self.machines); r.execs = copy.deepcopy(self.execs); r.logging = getattr(self, "logging", True)
+        r = Ref(); r.machines = copy.deepcopy(self.machines); r.execs = copy.deepcopy(self.execs); r.logging = getattr(self, "logging", True); r.strict = getattr(self, "strict", False)
         return r
 
     def expect(self, call, now):
         """-> ('error', allowed types) | ('any4xx',) | ('ok', body checker, mutate fn or None)"""
         a, p, fault = call["action"], call["params"], call["fault"]
+        if getattr(self, "strict", False) and call.get("strict_fault"):
+            fault = set(call["strict_fault"])
+            if a == "CreateStateMachine" and sm(p["name"]) in self.machines:
+                fault.add("StateMachineAlreadyExists")      # two faults: refused for either
         if fault == "any4xx":
             return ("any4xx",)
         if fault is not None:
@@ -277,11 +291,11 @@ class Ref(object):
 # ------------------------------------------------------------------------------------------------------
 class Sut(object):
     """The real front end + engine, with snapshot / restore of the three stores."""
-    def __init__(self, blocking=False):
+    def __init__(self, blocking=False, validate_asl=None):
         from harness.world import World
         from harness.api import ApiClient
         self.w = World({"name": "c10", "machines": {}, "record_sites": False})
-        self.api = ApiClient(self.w, blocking=blocking)
+        self.api = ApiClient(self.w, blocking=blocking, validate_asl=validate_asl)
         self.eng = self.w.instances[0].engine
 
     def snapshot(self):
@@ -342,9 +356,11 @@ def judge(call, exp, st, js, text, before, after):
         return ("wrong-body", "body %r" % (text[:300],))
     return None
 
-def bfs(tier, blocking=False, shared_only=False):
-    sut = Sut(blocking=blocking)
+def bfs(tier, blocking=False, shared_only=False, strict=False):
+    sut = Sut(blocking=blocking, validate_asl=True if strict else None)
     calls = alphabet(tier)
+    if strict:
+        calls = [c for c in calls if c["tag"] in STRICT_TAGS]
     if blocking:
         # the blocking front end predates loggingConfiguration: that parameter is not part of what the two front ends share
         calls = [c for c in calls if "log" not in c["tag"]]
@@ -353,6 +369,7 @@ def bfs(tier, blocking=False, shared_only=False):
                 c["params"] = {k: v for k, v in c["params"].items() if k != "loggingConfiguration"}
     ref0 = Ref()
     ref0.logging = not blocking
+    ref0.strict = strict
     seen = {ref0.canon(): 0}
     frontier = [(sut.snapshot(), ref0, [])]
     states = transitions = 0
@@ -537,8 +554,9 @@ def _overlap_job(args):
 def run(tier, seed):
     cr = common.CheckResult(PROP)
     ctx = multiprocessing.get_context("fork")
-    with ctx.Pool(2) as pool:
-        ra, rb = pool.map(_bfs_job, [(tier, False), (tier, True)])
+    # (the blocking front end has no validate_asl option: the validating configuration exists for the asyncio one only)
+    with ctx.Pool(3) as pool:
+        ra, rb, sa = pool.map(_bfs_job, [(tier, False), (tier, True), (tier, False, True)])
     with ctx.Pool(common.JOBS) as pool:
         ov = pool.map(_overlap_job, [(tier, i) for i in range(len(OVERLAP))], chunksize=1)
     for o in ov:
@@ -547,14 +565,15 @@ def run(tier, seed):
             cr.add(sig, "asyncio front end, after %s: %s (interleaving %s)" % (" -> ".join(o["pair"][0]) or "(empty store)", o["finding"][0], o["finding"][1]),
                    {"kind": "overlap", "property": PROP, "signature": sig, "pair_index": OVERLAP.index(tuple(o["pair"])) if tuple(o["pair"]) in OVERLAP else [list(x) for x in OVERLAP].index(o["pair"]),
                     "choices": o["finding"][1]}, size=len(o["finding"][1]))
-    for front, r in (("asyncio", ra), ("blocking", rb)):
+    for front, r in (("asyncio", ra), ("blocking", rb), ("asyncio+validate_asl", sa)):
         for sig, (detail, path) in r["findings"].items():
             s2 = sig + "|" + front
             cr.add(s2, "%s front end, after %s: %s" % (front, " -> ".join(path[:-1]) or "(empty store)", detail),
                    {"kind": "api", "property": PROP, "signature": s2, "front": front, "path": path}, size=len(path))
     cr.coverage = {
-        "states": ra["states"] + rb["states"], "transitions": ra["transitions"] + rb["transitions"],
-        "traces_validated_against_impl": ra["transitions"] + rb["transitions"],
+        "states": ra["states"] + rb["states"] + sa["states"], "transitions": ra["transitions"] + rb["transitions"] + sa["transitions"],
+        "traces_validated_against_impl": ra["transitions"] + rb["transitions"] + sa["transitions"],
+        "validate_asl_on": {"asyncio": {"states": sa["distinct_states"], "calls": sa["calls"]}},
         "samples": [{"path": ["create-ma", "start-ma-e1", "update-ma-role-baddef"]}, {"path": ["create-mb-express", "start-mb-e1", "descexec-mb-e1"]}],
         "distinct_store_states": {"asyncio": ra["distinct_states"], "blocking": rb["distinct_states"]}, "bfs_depth": {"asyncio": ra["depth"], "blocking": rb["depth"]},
         "alphabet_size": ra["calls"], "capped": [x for x in (("asyncio" if ra["capped"] else None), ("blocking" if rb["capped"] else None)) if x],
@@ -571,16 +590,19 @@ def run(tier, seed):
     return cr
 
 def _bfs_job(args):
-    return bfs(args[0], blocking=args[1])
+    return bfs(args[0], blocking=args[1], strict=len(args) > 2 and args[2])
 
 def replay(rp):
     if rp.get("kind") == "overlap":
         o = _overlap_job(("thorough", rp["pair_index"]))
         print(("REPRODUCED property=C10 %r" % (o["finding"],)) if o["finding"] else "not reproduced")
         return 1 if o["finding"] else 0
-    sut = Sut(blocking=rp["front"] == "blocking")
+    strict = rp["front"].endswith("+validate_asl")
+    sut = Sut(blocking=rp["front"].startswith("blocking"), validate_asl=True if strict else None)
     calls = {c["tag"]: c for c in alphabet("quick")}
     ref = Ref()
+    ref.strict = strict
+    ref.logging = not rp["front"].startswith("blocking")
     bad = None
     for i, tag in enumerate(rp["path"]):
         c = calls[tag]
